@@ -161,6 +161,9 @@ def points(tier: str) -> List[Dict[str, Any]]:
                 for d in (-1000, 0, 1000):
                     if i + d >= 0:
                         offs.add(i + d)
+            # every 25 ms while registrations (probes, announcements) are in flight
+            for ms in list(range(100, 1300, 25)) + (list(range(2500, 3700, 25)) if scenario != "early" else []):
+                offs.add(ms * 1000)
             for off in sorted(offs):
                 for mode in ("async_close", "sync_close"):
                     pts.append({"scenario": scenario, "jitter": jitter, "close_at_us": off, "mode": mode})
@@ -206,6 +209,17 @@ def run_point(p: Dict[str, Any], verbose: bool = False) -> Tuple[Optional[Dict[s
         if must - gone:
             problems.append(f"goodbye: close returned without goodbyes for {sorted(must - gone, key=repr)[:3]} "
                             f"(registered when close was requested)")
+        # withdrawn means withdrawn: once the last goodbye is out, no record of those services may follow with a TTL
+        last_bye = max([d.t_ms for d in during if d.is_response and d.multicast and
+                        any(ttl == 0 and i in must for i, ttl in d.idents_ttl())], default=None)
+        if last_bye is not None:
+            for d in during:
+                if d.t_ms > last_bye and d.is_response:
+                    back = [i for i, ttl in d.idents_ttl() if ttl > 0 and i in must]
+                    if back:
+                        problems.append(f"goodbye: {back[:2]} transmitted with a TTL {d.t_ms - last_bye:.0f} ms after the last "
+                                        f"goodbye, before close returned")
+                        break
         if not all(t.closed for t in host.transports()):
             problems.append("sockets: a transport is still open after close returned")
         # second close: a no-op
